@@ -832,16 +832,24 @@ impl UndoOperation for InsertColumn {
 }
 
 mod scroll_util {
-    use crate::{editor::EditorError, EngineResult};
+    use crate::{editor::EditorError, EngineResult, Layer, Line, TextPane};
+
+    /// The rows of the layer as a slice that is exactly as long as the layer is high. Rows are stored
+    /// lazily and rows below the layer height are hidden content, both must not take part in a rotation.
+    fn rows(layer: &mut Layer) -> &mut [Line] {
+        let height = layer.get_height().max(0) as usize;
+        if layer.lines.len() < height {
+            layer.lines.resize(height, Line::default());
+        }
+        &mut layer.lines[..height]
+    }
 
     pub(crate) fn scroll_layer_up(edit_state: &mut crate::editor::EditState, layer: usize) -> EngineResult<()> {
         if let Some(layer) = edit_state.get_buffer_mut().layers.get_mut(layer) {
-            if layer.lines.is_empty() {
-                log::error!("Layer has no lines");
-                return Ok(());
+            let rows = rows(layer);
+            if !rows.is_empty() {
+                rows.rotate_left(1);
             }
-            let lines = layer.lines.remove(0);
-            layer.lines.push(lines);
             Ok(())
         } else {
             Err(EditorError::InvalidLayer(layer).into())
@@ -849,10 +857,9 @@ mod scroll_util {
     }
     pub(crate) fn scroll_layer_down(edit_state: &mut crate::editor::EditState, layer: usize) -> EngineResult<()> {
         if let Some(layer) = edit_state.get_buffer_mut().layers.get_mut(layer) {
-            if let Some(lines) = layer.lines.pop() {
-                layer.lines.insert(0, lines);
-            } else {
-                log::error!("Layer {layer} has no lines");
+            let rows = rows(layer);
+            if !rows.is_empty() {
+                rows.rotate_right(1);
             }
             Ok(())
         } else {
